@@ -61,6 +61,14 @@ Interpret(z, w, offKind, off, dis, offOpt, matchMinutes) ==
           ELSE IF offOpt = "reject" THEN ErrRange
           ELSE Disambiguate(z, w, dis)                           \* prefer
 
+\* the same for a property bag (from_partial): the explicit offset has minute precision. Temporal matches it exactly against the
+\* candidates' offsets, this crate passes match-minutes; where the two readings differ (a candidate offset with seconds that rounds to
+\* the given minutes) nothing is asserted
+InterpretBag(z, w, offKind, off, dis, offOpt) ==
+  LET exact == Interpret(z, w, offKind, off, dis, offOpt, FALSE)
+      rounded == Interpret(z, w, offKind, off, dis, offOpt, TRUE)
+  IN IF exact = rounded THEN exact ELSE [kind |-> "any"]
+
 \* two transitions less than a day apart: engines (and Temporal's reference implementation) find the offsets around a gap by
 \* looking one day before and after, which is only right when no other transition is that close
 CloseTransitions(z) == \E i, j \in 1..NT(z) : i # j /\ AbsI(z.trans[i].at - z.trans[j].at) < 86400
